@@ -5,7 +5,7 @@ exhaustive MC incl. configurations that MUST fail), GenEventLog (scenario genera
 grain the harness can force), EventLogTrace (replay of real traces, predicates evaluated on what real handlers
 returned).  Driver: harness/drivers/c18 (real gossipsub/floodsub node, fake peers, consumer goroutines)."""
 import concurrent.futures as cf
-import glob, json, os, random, re
+import glob, json, os, random, re, signal, subprocess, time
 from .. import vlib
 
 LEVEL = "model_checking"
@@ -123,26 +123,28 @@ def random_scenario(rng, nsteps, npeers=4, nh=3):
             "handlerOf": cons, "steps": steps}
 
 
-def gen_cfg(L, extras, two_handlers, maxraw):
+def gen_cfg(L, extras, two_handlers, maxraw, lmin=None):
     g = "G2" if two_handlers else "G"
     return vlib.cfg_text(spec="GSpec", constants={
         "Peers": "Peers <- GPeers", "Handlers": "Handlers <- %sHandlers" % g, "Consumers": "Consumers <- %sConsumers" % g,
         "HandlerOf": "HandlerOf <- %sHandlerOf" % g, "MaxRaw": maxraw, "MaxCalls": "MaxCalls <- %sMaxCalls" % g,
         "CtxCancellable": "CtxCancellable <- %sCtx" % g, "HCancellable": "HCancellable <- %sHandlers" % g,
         "Mon": False, "History": False, "Rearm": True, "CoalesceOnEqual": False, "SignalOnInsert": True,
-        "FirstSighting": True, "SeedAtomic": True, "L": L, "Extras": extras}, invariants=["Emit"])
+        "FirstSighting": True, "SeedAtomic": True, "L": L, "Lmin": lmin or L, "Extras": extras}, invariants=["Emit"])
 
 
 def model_check(ctx):
     """Exhaustive MC of the mutex-grain model + the configurations that must fail. All runs in parallel."""
-    ok = [("MCEventLog", 8), ("MCEventLogHist", 2), ("MCEventLogLiveQ", 2)]
+    ok = [("MCEventLog", 8), ("MCEventLogHistQ", 2), ("MCEventLogLiveQ", 2)]
     if ctx.thorough:
-        ok += [("MCEventLog2H", 8), ("MCEventLogLive", 2)]
+        ok += [("MCEventLogHist", 2), ("MCEventLog2H", 8), ("MCEventLogLive", 2)]
     bad = {"MCEventLogNoRearm": {"P_C18_NoLostWake"}, "MCEventLogNoRearmInv": {"P_C18_WakePending"},
            "MCEventLogNoSignal": {"P_C18_NoLostWake"},
            "MCEventLogCoalesceEq": {"M_C18_Replay", "M_C18_Alternate", "M_C18_Elide"},
            "MCEventLogJoinAlways": {"M_C18_Replay", "M_C18_Alternate", "M_C18_Elide"},
            "MCEventLogSeedLate": {"M_C18_Replay", "M_C18_Alternate", "M_C18_Elide"}}
+    if not ctx.thorough:    # the safety form of the re-arm variant and the late-seeding variant only at the thorough tier
+        bad = {n: v for n, v in bad.items() if n not in ("MCEventLogNoRearmInv", "MCEventLogSeedLate")}
     jobs = [(n, w) for n, w in ok] + [(n, 1) for n in bad]
     res = {}
     with cf.ThreadPoolExecutor(max_workers=4) as ex:
@@ -185,12 +187,15 @@ def generate(ctx):
                 uniq.append(s)
         return uniq
 
-    # exhaustive for short sequences (2 peers, 1 handler, 2 consumers in step mode)
-    plan = [(5, 2500), (7, 700)] if not ctx.thorough else [(6, 100000), (7, 5000)]
+    # exhaustive for short sequences (2 peers, 1 handler, 2 consumers in step mode): one BFS run emits every scenario of
+    # Lmin..L steps; per length either all of them are replayed or a seeded sample
+    caps = {5: 2500, 6: 350} if not ctx.thorough else {6: 100000, 7: 5000}
+    lo, hi = min(caps), max(caps)
+    g = vlib.run_tlc(ctx, FAMILY, "MCGenEventLog", gen_cfg(hi, False, False, 6, lmin=lo), timeout=900, name="gen-L%d-%d" % (lo, hi), workers=4, heap="6g")
+    allgen = [s for s in take(g, "GenEventLog L=%d..%d" % (lo, hi)) if any(x["a"] == "newh" for x in s["steps"])]
     exhaustive = {}
-    for L, cap in plan:
-        g = vlib.run_tlc(ctx, FAMILY, "MCGenEventLog", gen_cfg(L, False, False, 6), timeout=900, name="gen-L%d" % L, workers=4, heap="6g")
-        u = [s for s in take(g, "GenEventLog L=%d" % L) if any(x["a"] == "newh" for x in s["steps"])]
+    for L, cap in sorted(caps.items()):
+        u = sorted((s for s in allgen if len(s["steps"]) == L), key=lambda s: json.dumps(s, sort_keys=True))
         exhaustive[L] = len(u) <= cap
         if len(u) > cap:
             rng.shuffle(u)
@@ -200,11 +205,11 @@ def generate(ctx):
             s["name"] = "gen:L%d" % L
         scns += u
     # random longer ones with the extras (free-mode calls, resub/reunsub/flap), 2 handlers, 3 consumers
-    n_sim = 300 if not ctx.thorough else 3000
+    n_sim = 150 if not ctx.thorough else 3000
     g = vlib.run_tlc(ctx, FAMILY, "MCGenEventLog", gen_cfg(14, True, True, 12), mode="sim", simulate="num=%d" % n_sim, depth=300,
                      workers=1, timeout=900, name="gen-sim")
-    u = take(g, "GenEventLog simulate")
-    cap = 450 if not ctx.thorough else 3000
+    u = sorted(take(g, "GenEventLog simulate"), key=lambda s: json.dumps(s, sort_keys=True))
+    cap = 250 if not ctx.thorough else 3000
     if len(u) > cap:
         rng.shuffle(u)
         u = u[:cap]
@@ -225,37 +230,157 @@ def generate(ctx):
     return allscn, states, transitions, info, exhaustive
 
 
-def run_driver(ctx, scns):
+def make_jobs(scns, batch=40):
+    """Consecutive scenarios with the same configuration share a node under test: half-open index ranges."""
+    jobs, i = [], 0
+    key = lambda s: json.dumps(s["cfg"], sort_keys=True)
+    while i < len(scns):
+        j = i + 1
+        while j < len(scns) and j - i < batch and key(scns[j]) == key(scns[i]):
+            j += 1
+        jobs.append([i, j])
+        i = j
+    return jobs
+
+
+def job_done(outdir, jb):
+    """A job's file is complete iff the end line of its last scenario is in it."""
+    path = os.path.join(outdir, "job-%d.ndjson" % jb[0])
+    try:
+        with open(path, "rb") as f:
+            f.seek(max(0, os.path.getsize(path) - 400))
+            tail = f.read().decode(errors="replace")
+    except OSError:
+        return False
+    last = tail.rstrip("\n").rsplit("\n", 1)[-1]
+    try:
+        d = json.loads(last)
+    except Exception:
+        return False
+    return d.get("e") == "end" and d.get("scn") == jb[1] - 1
+
+
+def run_proc(ctx, binp, scn_file, outdir, jobs, tag, stall, deadline):
+    """One driver process over the given jobs, supervised: it is killed when its marker (rewritten at the start of every
+    scenario, a few ms to a few hundred ms each) has not changed for `stall` seconds or the stage deadline has passed."""
+    jf = os.path.join(ctx.work, "jobs-%s.json" % tag)
+    with open(jf, "w") as f:
+        json.dump(jobs, f)
+    mark = os.path.join(ctx.work, "marker-%s" % tag)
+    if os.path.exists(mark):
+        os.remove(mark)
+    log = os.path.join(ctx.work, "go-replay-%s.log" % tag)
+    env = dict(os.environ)
+    env.update({"VERIF_IN": scn_file, "VERIF_OUTDIR": outdir, "VERIF_JOBS": jf, "VERIF_MARKER": mark, "VERIF_SEED": str(ctx.seed),
+                "VERIF_TIER": ctx.tier, "GOMAXPROCS": "4"})
+    killed = None
+    with open(log, "w") as lf:
+        p = subprocess.Popen([binp, "-test.run", "^TestC18Replay$", "-test.timeout", "%ds" % max(60, int(deadline - time.time()) + 30)],
+                             cwd=ctx.work, env=env, stdout=lf, stderr=subprocess.STDOUT)
+        seen, last_change = None, time.time()
+        while p.poll() is None:
+            time.sleep(0.5)
+            try:
+                m = os.stat(mark).st_mtime_ns
+            except OSError:
+                m = None
+            now = time.time()
+            if m != seen:
+                seen, last_change = m, now
+            if now - last_change > stall or now > deadline:
+                killed = "no progress for %d s" % int(now - last_change) if now <= deadline else "stage deadline"
+                p.send_signal(signal.SIGQUIT)      # the Go runtime dumps all goroutines
+                try:
+                    p.wait(timeout=10)
+                except subprocess.TimeoutExpired:
+                    p.kill()
+                    p.wait()
+                lf.write("\nc18.py: stopped the driver: %s\n" % killed)
+                break
+    at = open(mark).read().strip() if os.path.exists(mark) else ""
+    return {"rc": p.returncode, "killed": killed, "at": int(at) if at.isdigit() else None, "log": log}
+
+
+def build_driver(ctx):
+    binp = os.path.join(ctx.work, "c18.test")
+    b = vlib.run_go(ctx, "./drivers/c18/", "^TestC18Replay$", extra=["-c", "-o", binp], timeout=600, name="build")
+    if b["rc"] != 0 or not os.path.exists(binp):
+        raise vlib.Inconclusive("cannot build the C18 driver (see %s)" % b["log"])
+    return binp
+
+
+def run_driver(ctx, scns, binp=None):
+    """Replays the scenarios on the real code. Returns {scenario index: lines} for the scenarios that were recorded completely.
+    The stage is bounded (quick 300 s, thorough 1500 s, then Inconclusive); a process that dies or stops making progress (marker
+    unchanged for 60/120 s) is stopped with SIGQUIT (goroutine dump in its log), attributed to the job it was in, and the remaining
+    jobs are resumed in a new process with that job last. A second failure in the same job is Inconclusive, unless the process
+    panicked in library code and the scenario, replayed alone, panics again (then P_C18_NoPanic)."""
     scn_file = os.path.join(ctx.work, "scenarios.ndjson")
     vlib.write_ndjson(scn_file, scns)
-    outp = os.path.join(ctx.work, "trace.ndjson")
-    marker = os.path.join(ctx.work, "marker")
-    r = vlib.run_go(ctx, "./drivers/c18/", "^TestC18Replay$", env={"VERIF_IN": scn_file, "VERIF_OUT": outp, "VERIF_PAR": 6, "VERIF_BATCH": 40}, timeout=2400)
-    if r["rc"] != 0:
-        # attribute the failure: sequential re-run with a marker, then the marked scenario alone
-        vlib.run_go(ctx, "./drivers/c18/", "^TestC18Replay$", env={"VERIF_IN": scn_file, "VERIF_OUT": outp + ".seq", "VERIF_PAR": 1,
-                                                                   "VERIF_MARKER": marker}, timeout=2400, name="seq")
-        idx = open(marker).read().strip() if os.path.exists(marker) else "?"
-        if idx.isdigit():
-            one = os.path.join(ctx.work, "trace-one.ndjson")
-            r2 = vlib.run_go(ctx, "./drivers/c18/", "^TestC18Replay$", env={"VERIF_IN": scn_file, "VERIF_OUT": one, "VERIF_ONLY": idx},
-                             timeout=600, name="rerun-%s" % idx)
-            m = re.search(r"panic: (.*)", r2["out"])
-            in_lib = re.search(r"go-libp2p-pubsub[^\n]*\.go:\d+|/repo/[^\n]*\.go:\d+", r2["out"]) is not None
-            if r2["rc"] != 0 and m and in_lib:
+    binp = binp or build_driver(ctx)
+    outdir = ctx.sub("jobs")
+    jobs = make_jobs(scns)
+    budget = 300 if not ctx.thorough else 1500
+    stall = int(os.environ.get("VERIF_C18_STALL", 60 if not ctx.thorough else 120))
+    deadline = time.time() + budget
+    nsh = max(1, min(4, vlib.NCPU // 2, len(scns) // 2500 + 1))
+    strikes, abandoned, events = {}, [], []
+
+    def shard(k):
+        mine = [jb for i, jb in enumerate(jobs) if i % nsh == k]
+        attempt = 0
+        while mine and time.time() < deadline:
+            attempt += 1
+            r = run_proc(ctx, binp, scn_file, outdir, mine, "s%d-a%d" % (k, attempt), stall, deadline)
+            mine = [jb for jb in mine if not job_done(outdir, jb)]
+            if r["rc"] == 0 and not r["killed"]:
+                if mine:
+                    raise vlib.Inconclusive("driver exited cleanly but %d job(s) are incomplete (see %s)" % (len(mine), r["log"]))
+                break
+            cul = next((jb for jb in mine if r["at"] is not None and jb[0] <= r["at"] < jb[1]), mine[0] if mine else None)
+            events.append((r, cul))
+            if cul is not None:
+                strikes[cul[0]] = strikes.get(cul[0], 0) + 1
+                if strikes[cul[0]] >= 2:
+                    abandoned.append(cul)
+                    mine = [jb for jb in mine if jb != cul]
+                else:       # try it again, last
+                    mine = [jb for jb in mine if jb != cul] + [cul]
+            if attempt >= 6:
+                break
+        return mine
+
+    with cf.ThreadPoolExecutor(max_workers=nsh) as ex:
+        left = [jb for rest in ex.map(shard, range(nsh)) for jb in rest]
+    for r, cul in events:
+        out = open(r["log"], errors="replace").read()
+        m = re.search(r"^panic: (.*)", out, re.M)
+        lib = re.search(r"go-libp2p-pubsub[^\n]*\.go:\d+|/repo/[^\n]*\.go:\d+", out.split("panic:", 1)[1][:3000]) if m else None
+        if m and lib and r["at"] is not None and not r["killed"]:
+            # a panic in library code: is it the scenario's doing? replay it alone
+            one = run_proc(ctx, binp, scn_file, ctx.sub("jobs-one"), [[r["at"], r["at"] + 1]], "one-%d" % r["at"], stall, time.time() + 120)
+            out1 = open(one["log"], errors="replace").read()
+            if one["rc"] != 0 and re.search(r"^panic: ", out1, re.M) and re.search(r"go-libp2p-pubsub[^\n]*\.go:\d+|/repo/[^\n]*\.go:\d+", out1):
                 vlib.add_violation(ctx, "P_C18_NoPanic", {"panic": m.group(1)[:120]},
-                                   "the library panicked while replaying scenario %s: %s" % (idx, m.group(1)[:200]),
-                                   {"scenario": scns[int(idx)], "log": r2["log"]})
-                return None
-        raise vlib.Inconclusive("driver failed (rc=%s, scenario %s, see %s)" % (r["rc"], idx, r["log"]))
-    if not os.path.exists(outp) or os.path.getsize(outp) == 0:
-        raise vlib.Inconclusive("driver produced no trace (see %s)" % r["log"])
-    lines = [l for l in vlib.read_ndjson(outp) if l.get("e") not in (None, "setup")]
-    # batches run in parallel: regroup the lines by scenario (order inside a scenario is preserved)
+                                   "the library panics while replaying scenario %d: %s" % (r["at"], m.group(1)[:200]),
+                                   {"scenario": scns[r["at"]], "log": one["log"]})
+                continue
+        ctx.notes.append("the driver %s in scenario %s (job %s, see %s); the job was %s" % (
+            "was stopped (%s)" % r["killed"] if r["killed"] else "died (rc=%s)" % r["rc"], r["at"], cul, r["log"],
+            "abandoned after two attempts" if cul in abandoned else "replayed in a new process"))
+    if abandoned and not ctx.violations:
+        # twice in the same job: not a one-off of the runtime or the box. Never green, never a violation by itself.
+        raise vlib.Inconclusive("the driver died or stopped making progress twice in the same job(s) %s (logs: %s/go-replay-*.log)" % (abandoned[:3], ctx.work))
+    if left and not ctx.violations:
+        raise vlib.Inconclusive("the replay stage did not finish within %d s: %d job(s) left (logs: %s/go-replay-*.log)" % (budget, len(left), ctx.work))
     by = {}
-    for l in lines:
-        by.setdefault(l["scn"], []).append(l)
-    return [l for i in sorted(by) for l in by[i]]
+    for jb in jobs:
+        if jb in abandoned:
+            continue
+        for l in vlib.read_ndjson(os.path.join(outdir, "job-%d.ndjson" % jb[0])):
+            if l.get("e") not in (None, "setup", "setup-failed"):
+                by.setdefault(l["scn"], []).append(l)
+    return {i: ls for i, ls in by.items() if ls and ls[0]["e"] == "reset" and ls[-1]["e"] == "end"}
 
 
 def coverage(traces, names):
@@ -358,33 +483,47 @@ def run(ctx):
         scns, st, tr, info, exhaustive = vlib.read_ndjson(dev), 0, 0, {"reused": dev}, {}
         ctx.notes.append("C18_DEV_SCENARIOS set: model checking and generation were skipped")
     else:
-        states, transitions, mc = model_check(ctx)
-        ctx.log("model checking done: %s" % mc)
+        # the model checking runs do not depend on /repo nor on the scenarios: they proceed in the background while the scenarios
+        # are generated, replayed and validated; their result is required before the verdict
+        states = transitions = 0
+        bg = cf.ThreadPoolExecutor(max_workers=2)
+        mc_f = bg.submit(model_check, ctx)
+        build_f = bg.submit(build_driver, ctx)
         scns, st, tr, info, exhaustive = generate(ctx)
     states += st
     transitions += tr
     ctx.log("scenarios: %s" % info)
-    lines = run_driver(ctx, scns)
-    if lines is None:
-        return vlib.finish(ctx, LEVEL, {"states": states, "transitions": transitions, "traces_validated_against_impl": 0, "samples": [],
-                                        "evaluations": 0, "distinct_nontrivial": 0, "rule": "driver crashed"}, [])
-    skips = sum(1 for l in lines if l["e"] == "skip")
-    traces = vlib.split_scenarios([l for l in lines if l["e"] != "skip"])
-    if len(traces) != len(scns):
-        raise vlib.Inconclusive("driver recorded %d scenarios, %d were sent" % (len(traces), len(scns)))
+    by = run_driver(ctx, scns, build_f.result() if not dev else None)
+    lost = [i for i in range(len(scns)) if i not in by]
+    if lost:
+        ctx.notes.append("%d scenario(s) were not recorded (driver died or was stopped there twice), e.g. %s" % (len(lost), lost[:5]))
+        if len(lost) > max(45, len(scns) // 50) and not ctx.violations:
+            raise vlib.Inconclusive("the driver could not record %d of %d scenarios" % (len(lost), len(scns)))
+    keep = sorted(by)
+    scns = [scns[i] for i in keep]
+    skips = sum(1 for i in keep for l in by[i] if l["e"] == "skip")
+    traces = [[l for l in by[i] if l["e"] != "skip"] for i in keep]
+    lines = [l for t in traces for l in t]
+    if not traces:
+        raise vlib.Inconclusive("the driver recorded nothing")
     # scenarios the HARNESS could not carry out (a reconnect of a fake peer failed) are not judged
     aborted = [i for i, sc in enumerate(traces) if any(e["e"] == "abort" for e in sc)]
     if aborted:
         ctx.notes.append("%d scenario(s) abandoned by the harness (e.g. %s)" % (len(aborted), [e for e in traces[aborted[0]] if e["e"] == "abort"][0]["why"][:160]))
         if len(aborted) > max(5, len(traces) // 50):
             raise vlib.Inconclusive("the harness abandoned %d scenarios" % len(aborted))
-        keep = [i for i in range(len(traces)) if i not in set(aborted)]
-        traces, scns = [traces[i] for i in keep], [scns[i] for i in keep]
+        keep2 = [i for i in range(len(traces)) if i not in set(aborted)]
+        traces, scns = [traces[i] for i in keep2], [scns[i] for i in keep2]
     ctx.log("driver: %d scenarios, %d lines, %d skipped steps" % (len(traces), len(lines), skips))
 
-    rej, acc, tv_states = vlib.validate_by_cursor(ctx, FAMILY, "EventLogTrace", "EventLogTrace.cfg", traces, chunk=250,
+    rej, acc, tv_states = vlib.validate_by_cursor(ctx, FAMILY, "EventLogTrace", "EventLogTrace.cfg", traces, chunk=(1300 if not ctx.thorough else 850),
                                                   max_rejects=4, timeout=1200, name="tv")
     states += tv_states
+    if not dev:
+        s2, t2, mc = mc_f.result()          # raises Inconclusive if the model level is not as it must be
+        states += s2
+        transitions += t2
+        ctx.log("model checking done: %s" % mc)
     # VIOL lines printed by the trace spec: (scn, offset) -> predicate names
     viol = {}
     for f in glob.glob(os.path.join(ctx.work, "tlc*-tv-*", "tlc.out")):
@@ -461,7 +600,7 @@ def run(ctx):
         if any(e["e"] == "ret" and e["k"] in ("J", "L") for e in sc) and any(e["e"] == "quiet" and (e["blocked"] or e["parked"]) for e in sc):
             nontrivial.add(key)
     samples = []
-    for name in ("forced:rearm2", "gen:L7", "random"):
+    for name in ("forced:rearm2", "gen:L6", "gen:L7", "random"):
         for i, s in enumerate(scns):
             if s.get("name") == name and i not in rejected_idx:
                 samples.append({"scenario": name, "trace": traces[i][:24]})
